@@ -235,7 +235,12 @@ def faults(spec, asg, toks, roles):
         for i in range(n + 1):
             if boundary(i) and not after_bare(i):
                 yield "surplus-positional", toks[:i] + ["zz"] + toks[i:], CPA
+                # the empty word and a lone dash are positionals too (wherever they stand) ...
+                yield "surplus-positional", toks[:i] + [""] + toks[i:], CPA
+                yield "surplus-positional", toks[:i] + ["-"] + toks[i:], CPA
                 if i > dd:
+                    # ... and so is a second `--` behind the separator
+                    yield "surplus-positional", toks[:i] + ["--"] + toks[i:], CPA
                     # behind `--` nothing is a command name: a surplus word spelled like one is still surplus
                     for nm in spec["names"]:
                         for w in [nm[0]] + list(nm[1]):
